@@ -41,6 +41,12 @@ def offset_of(text, line, col):
         i += 1
     if ln != line:
         return None
+    # the column must lie on that line (at most one past its last character)
+    j = start
+    while j < n and text[j] not in '\n\r\u2028\u2029':
+        j += 1
+    if col - 1 > j - start:
+        return None
     return start + col - 1
 
 
@@ -108,7 +114,14 @@ def _ejob(chunk):
     return n, bad[:50]
 
 
+K_STRING_BACKTRACK = 'C12 E: an unterminated string literal made of octal-looking escapes takes exponential time (parse does not return)'
+
+
 def key_of(text, msg):
+    if 'does not terminate' in msg and re.fullmatch(r'x = [\'"](?:\\[0-7]{1,3})+\n?', text):
+        return K_STRING_BACKTRACK
+    if 'does not terminate' in msg:
+        return 'C12 E: parse does not return: ' + re.sub(r'(.)\1{5,}', lambda m: m.group(1) + '{n}', text)[:50]
     m = re.match(r'(\w+) escapes', msg)
     if m:
         return 'C12 E: %s escapes from parse()' % m.group(1)
@@ -215,6 +228,16 @@ def main():
             strings += [unit * n, unit * n + 'a', 'a' + unit * n + 'b', 'a = 1' + unit * n + '/ 2 /', unit * n + '#']
     for n in (300, 2000):
         strings += ['(' * n, '(' * n + 'a' + ')' * n, '[' * n + ']' * n, '{' * n + '}' * n, 'a' + '.b' * n, 'a' + '+a' * n, '!' * n + 'a', 'x=' * n + '1', "'" + 'a' * n * 10, '/' + 'a' * n * 10, 'a' * n * 10]
+    # look-aheads and alternations that could backtrack without bound: contextual get/set followed by long layout and no
+    # property name; unterminated string literals whose escapes have several readings
+    for kw in ('get', 'set'):
+        for ws in (' ', '\t', '\n', ' \n', '/**/', ' /*c*/'):
+            for tail in (': 1 })', '(key)', '+ 1', '', ', b', '// x'):
+                for n in (28, 60):
+                    strings += ['({ ' + kw + ws * n + tail, 'cache.' + kw + ws * n + tail]
+    for esc in ('\\11', '\\0', '\\1\\01', '\\x4', 'a\\\n'):
+        for q in ("'", '"'):
+            strings += ['x = ' + q + esc * 20 + '\n', 'x = ' + q + esc * 20]
     strings = list(dict.fromkeys(strings))
     chunks = [strings[i::256] for i in range(256)]
     eres = common.pmap(_ejob, chunks)
